@@ -4,7 +4,9 @@
 // alphabet of DESIGN.md §1 C08 (see c08_alpha.hpp): every exponent of the type for the leading component
 // (float -149..63, double -1074..511), in every slot, x relative exponents {0,-1,-2,-12,-24,-25,-53,-54,
 // -inf} of the other components x mantissas {1,1+ulp,1.5,2-ulp} x sign patterns (incl. -0); thorough adds
-// the complete exponent square/cube for float Vec2/Vec3.
+// the complete exponent square/cube for float Vec2/Vec3.  Stages tiny-mixed.*: the full product of a tiny-regime
+// alphabet (0, subnormals, min, around sqrt(min) and sqrt(2 min)) over all slots - every ordering of the component
+// magnitudes, ratios whose square overflows (see tiny_mixed_stage).
 //
 // Oracle: the definition, sqrtl(sum x_i^2) in long double (64-bit significand, 15-bit exponent: no
 // overflow/underflow anywhere in the double range, relative error < 2^-62).
@@ -405,6 +407,138 @@ template <class T, int N> void boundary_stage (const char* name)
     R ().stage_done (std::string ("Vec") + char ('0' + N) + "<" + tname<T> () + ">: all 12^" + std::to_string (N) + " tuples over {+-0,+-denorm_min,+-min,+-1,+-(1+ulp),+-top}");
 }
 
+
+// ---- tiny regime, mixed magnitudes, EVERY slot assignment (seeded change C08-v2).
+// The exponent sweep above ties the non-leading components to the leading one by a relative exponent >= -54, so inside
+// the scaled ("lengthTiny") regime it never presents two non-zero components whose ratio SQUARED overflows, and the
+// boundary product has only denorm_min / min below 1.  lengthTiny() must scale by the LARGEST magnitude: scaling by any
+// other non-zero component is equally accurate as long as (largest/that)^2 is representable and returns +inf (and a zero
+// "normalized" vector) beyond it - which needs a subnormal component next to one near sqrt(min), in the right slots.
+// Space: the full product A^N x sign patterns, A = {0} u {m * 2^e : e in {emin_sub, emin_sub+1, a mid-subnormal exponent
+// (float 2^-140, double 2^-1060), emin_norm-1, emin_norm, hs-digits, hs-2, hs-1, hs, hs+1}, m in {1, 1+ulp, 1.5, 2-ulp},
+// exactly representable} u {largest value whose square is < 2*min, its successor}, hs = emin_norm/2 (2^hs = sqrt(min)
+// exactly; sqrt(min)/4 = 2^(hs-2)).  Being a full product it contains every ORDERING of the component magnitudes (all
+// N! strict orders, counted as classes for the tuples whose largest/smallest non-zero ratio squared overflows) and both
+// sides of the 2*min switch-over.  Oracle and tolerances: Checker::check, unchanged (the scaled-path analysis in the
+// header only uses ratios <= 1: a ratio or its square that underflows is an absolute error <= denorm_min in a sum >= 1).
+template <class T> std::vector<T> tiny_alphabet ()
+{
+    std::vector<T> a;
+    a.push_back (T (0));
+    const int hs = c08::Lim<T>::emin_norm / 2, dg = std::numeric_limits<T>::digits;
+    const int mid = sizeof (T) == 4 ? -140 : -1060;
+    const int ex[10] = {c08::Lim<T>::emin_sub, c08::Lim<T>::emin_sub + 1, mid, c08::Lim<T>::emin_norm - 1, c08::Lim<T>::emin_norm, hs - dg, hs - 2, hs - 1, hs, hs + 1};
+    for (int e : ex)
+        for (int m = 0; m < 4; ++m)
+        {
+            T v;
+            if (c08::mk<T> (m, e, v)) a.push_back (v);
+        }
+    // the two neighbours of sqrt(2*min): lo^2 < 2*min <= hi^2 (squares exact in long double)
+    const long double two_min = 2 * (long double) std::numeric_limits<T>::min ();
+    T lo = (T) sqrtl (two_min);
+    while ((long double) lo * (long double) lo >= two_min) lo = std::nextafter (lo, T (0));
+    while ((long double) std::nextafter (lo, T (1)) * (long double) std::nextafter (lo, T (1)) < two_min) lo = std::nextafter (lo, T (1));
+    a.push_back (lo);
+    a.push_back (std::nextafter (lo, T (1)));
+    return a;
+}
+
+template <class T, int N> void tiny_mixed_stage (const char* name, const std::vector<unsigned>& signs)
+{
+    if (!R ().stage (name)) return;
+    const std::vector<T> A = tiny_alphabet<T> ();
+    const uint64_t       na = A.size (), ns = signs.size ();
+    uint64_t             n = ns;
+    for (int i = 0; i < N; ++i) n *= na;
+    int nperm = 1;
+    for (int i = 2; i <= N; ++i) nperm *= i;
+    Checker<T, N> ck;
+    std::mutex    mu;
+    Tally         total;
+    std::vector<long long> order_cnt (nperm, 0);
+    long long     huge_total = 0, scaled_total = 0, second_sub_total = 0;
+    std::atomic<uint64_t> done (0);
+    const long double tmax = (long double) std::numeric_limits<T>::max (), tmin = (long double) std::numeric_limits<T>::min ();
+    bool complete = parallel_chunks (n, 1u << 14, [&] (uint64_t lo, uint64_t hi, unsigned) {
+        Tally t;
+        std::vector<long long> oc (nperm, 0);
+        long long huge = 0, scaled = 0, second_sub = 0;
+        T c[N];
+        for (uint64_t i = lo; i < hi; ++i)
+        {
+            uint64_t k = i;
+            unsigned sg = signs[k % ns]; k /= ns;
+            long double s = 0, mag[N];
+            for (int j = 0; j < N; ++j)
+            {
+                T v = A[k % na]; k /= na;
+                mag[j] = (long double) v;
+                s += mag[j] * mag[j];
+                c[j] = ((sg >> j) & 1u) ? -v : v;
+            }
+            // classes: predicates on the input
+            if (s != 0 && s < 2 * tmin)
+            {
+                ++scaled;
+                long double mx = 0, mn = INFINITY, mx2 = 0;
+                bool distinct = true;
+                for (int j = 0; j < N; ++j)
+                {
+                    if (mag[j] > mx) { mx2 = mx; mx = mag[j]; } else if (mag[j] > mx2) mx2 = mag[j];
+                    if (mag[j] != 0 && mag[j] < mn) mn = mag[j];
+                    for (int l = 0; l < j; ++l) if (mag[l] == mag[j]) distinct = false;
+                }
+                if ((mx / mn) * (mx / mn) > tmax)
+                {
+                    ++huge;
+                    if (mx2 != 0 && (mx / mx2) * (mx / mx2) > tmax) ++second_sub; // even the second largest is out of reach of the largest
+                    if (distinct)
+                    {   // Lehmer code of the ordering of the magnitudes
+                        int code = 0;
+                        for (int j = 0; j < N; ++j)
+                        {
+                            int smaller = 0;
+                            for (int l = j + 1; l < N; ++l) if (mag[l] < mag[j]) ++smaller;
+                            code = code * (N - j) + smaller;
+                        }
+                        ++oc[code];
+                    }
+                }
+            }
+            ck.check (c, t);
+        }
+        done += hi - lo;
+        std::lock_guard<std::mutex> g (mu);
+        fold (total, t);
+        for (int p = 0; p < nperm; ++p) order_cnt[p] += oc[p];
+        huge_total += huge; scaled_total += scaled; second_sub_total += second_sub;
+    });
+    ck.merge (total);
+    const std::string d = std::string ("Vec") + char ('0' + N) + ".tiny-mixed.";
+    R ().cls (d + "scaled-path", scaled_total);
+    R ().cls (d + "(largest/smallest-nonzero)^2-overflows", huge_total);
+    R ().cls (d + "(largest/second-largest)^2-overflows", second_sub_total);
+    for (int p = 0; p < nperm; ++p)
+    {   // decode the Lehmer code back to "rank of each slot" for the class name
+        int digits[N], rem = p;
+        for (int j = N - 1; j >= 0; --j) { digits[j] = rem % (N - j); rem /= (N - j); }
+        std::vector<int> pool;
+        for (int j = 0; j < N; ++j) pool.push_back (j);
+        int rank[N];
+        for (int j = 0; j < N; ++j) { rank[j] = pool[digits[j]]; pool.erase (pool.begin () + digits[j]); }
+        std::string nm;
+        for (int r = 0; r < N; ++r)
+            for (int j = 0; j < N; ++j)
+                if (rank[j] == r) { if (r) nm += "<"; nm += std::string ("|") + "xyzw"[j] + "|"; }
+        R ().cls (d + "huge-ratio.order-" + nm, order_cnt[p]);
+    }
+    std::string what = std::string ("Vec") + char ('0' + N) + "<" + tname<T> () + ">: full product of the " + std::to_string (na) + "-value tiny-regime alphabet {0, subnormal, min, sqrt(min)*2^{-digits,-2,-1,0,1} x 4 mantissas, sqrt(2 min) neighbours}^" +
+                       std::to_string (N) + " x " + std::to_string (ns) + " sign patterns = " + std::to_string (n) + " tuples (every ordering of the component magnitudes)";
+    if (complete) R ().stage_done (what);
+    else R ().stage_partial (std::to_string (done.load ()) + " of " + what);
+}
+
 } // namespace
 
 int main (int argc, char** argv)
@@ -433,6 +567,11 @@ int main (int argc, char** argv)
     boundary_stage<float, 2> ("boundary.Vec2f"); boundary_stage<double, 2> ("boundary.Vec2d");
     boundary_stage<float, 3> ("boundary.Vec3f"); boundary_stage<double, 3> ("boundary.Vec3d");
     boundary_stage<float, 4> ("boundary.Vec4f"); boundary_stage<double, 4> ("boundary.Vec4d");
+
+    // tiny regime x mixed magnitudes x every slot assignment (all orderings of the component magnitudes)
+    tiny_mixed_stage<float, 2> ("tiny-mixed.Vec2f", c08::all_signs (2)); tiny_mixed_stage<double, 2> ("tiny-mixed.Vec2d", c08::all_signs (2));
+    tiny_mixed_stage<float, 3> ("tiny-mixed.Vec3f", c08::all_signs (3)); tiny_mixed_stage<double, 3> ("tiny-mixed.Vec3d", c08::all_signs (3));
+    tiny_mixed_stage<float, 4> ("tiny-mixed.Vec4f", c08::four_signs (4)); tiny_mixed_stage<double, 4> ("tiny-mixed.Vec4d", c08::four_signs (4));
 
     // Vec2: the full alphabet in both tiers
     sweep_stage<float, 2> ("sweep.Vec2f", M4, c08::all_signs (2));
